@@ -190,6 +190,69 @@ def translate(path: Path) -> str:
 # call-site inventory
 
 
+def _is_capture_set(fn: ast.FunctionDef, v: str) -> bool:
+    """`v` is the set of captured variables of the nested function: assigned once, to
+    {x: ... for x, _ in cfg.live_before[cfg.entry_bb].items() if x not in <params> and x in ctx.locals}
+    (the variables live at the entry of the nested function's CFG that are not its own
+    parameters and are locals of the enclosing scope), never modified afterwards, and it is the
+    object handed to CheckedNestedFunctionDef as the closure's captured variables."""
+    stores = [n for n in ast.walk(fn) if isinstance(n, ast.Name) and n.id == v and not isinstance(n.ctx, ast.Load)]
+    assigns = [n for n in ast.walk(fn) if isinstance(n, ast.Assign) and any(isinstance(t, ast.Name) and t.id == v for t in n.targets)]
+    if len(stores) != 1 or len(assigns) != 1 or len(assigns[0].targets) != 1:
+        return False
+    d = assigns[0].value
+    if not (isinstance(d, ast.DictComp) and len(d.generators) == 1):
+        return False
+    g = d.generators[0]
+    if not (isinstance(g.target, ast.Tuple) and len(g.target.elts) == 2 and isinstance(g.target.elts[0], ast.Name)):
+        return False
+    k = g.target.elts[0].id
+    if not (isinstance(d.key, ast.Name) and d.key.id == k):
+        return False
+    if ast.unparse(g.iter) != "cfg.live_before[cfg.entry_bb].items()":
+        return False
+    conj = []
+    for c in g.ifs:
+        conj += c.values if isinstance(c, ast.BoolOp) and isinstance(c.op, ast.And) else [c]
+    if sorted(ast.unparse(c) for c in conj) != sorted([f"{k} not in func_ty.input_names", f"{k} in ctx.locals"]):
+        return False
+    # never mutated: only read, or .values()/.keys()/.items() called on it, or indexed for reading
+    for n in ast.walk(fn):
+        if isinstance(n, ast.Attribute) and isinstance(n.value, ast.Name) and n.value.id == v and n.attr not in ("values", "keys", "items"):
+            return False
+        if isinstance(n, ast.Subscript) and isinstance(n.value, ast.Name) and n.value.id == v and not isinstance(n.ctx, ast.Load):
+            return False
+    # it is what the checked definition records as captured
+    for n in ast.walk(fn):
+        if isinstance(n, ast.Call) and ast.unparse(n.func) == "CheckedNestedFunctionDef":
+            if any(isinstance(a, ast.Name) and a.id == v for a in n.args) or any(kw.arg == "captured" and isinstance(kw.value, ast.Name) and kw.value.id == v for kw in n.keywords):
+                return True
+    return False
+
+
+def guard_kind(gnodes, fn) -> str:
+    """Normalised reading of the innermost condition under which a gate is called:
+    ""                    unconditional in its function
+    "function_tensor"     isinstance(X, TupleType) and (N := parse_function_tensor(X))
+    "captures_nonempty"   truth value of the nested function's capture set (see _is_capture_set)
+    "other: <text>"       anything else (never meets a requirement)"""
+    if not gnodes:
+        return ""
+    test, positive = gnodes[-1]
+    if test is None or not positive:
+        return "other: " + ("<non-if block>" if test is None else "else-branch of " + ast.unparse(test))
+    if (isinstance(test, ast.BoolOp) and isinstance(test.op, ast.And) and len(test.values) == 2):
+        a, b = test.values
+        if (isinstance(a, ast.Call) and ast.unparse(a.func) == "isinstance" and len(a.args) == 2 and isinstance(a.args[0], ast.Name)
+                and ast.unparse(a.args[1]) == "TupleType" and isinstance(b, ast.NamedExpr) and isinstance(b.value, ast.Call)
+                and ast.unparse(b.value.func) == "parse_function_tensor" and len(b.value.args) == 1
+                and isinstance(b.value.args[0], ast.Name) and b.value.args[0].id == a.args[0].id):
+            return "function_tensor"
+    if isinstance(test, ast.Name) and fn is not None and _is_capture_set(fn, test.id):
+        return "captures_nonempty"
+    return "other: " + ast.unparse(test)
+
+
 def gate_names(path: Path) -> list[str]:
     return [s.name for s in parse_file(path).body if isinstance(s, ast.FunctionDef) and GATE_RE.match(s.name)]
 
@@ -217,14 +280,14 @@ def scan_sites(src_roots: list[Path], exp_path: Path):
                 if isinstance(n, ast.alias) and n.name in names and n.asname not in (None, n.name):
                     aliases.append(f"{rel}:{n.name} as {n.asname}")
 
-            def walk(stmts, qual, guards, in_func):
+            def walk(stmts, qual, guards, in_func, gnodes=(), fnode=None):
                 for i, s in enumerate(strip_doc(stmts)):
                     pre = [type(x).__name__ for x in strip_doc(stmts)[:i]]
                     if isinstance(s, (ast.FunctionDef, ast.AsyncFunctionDef)):
-                        walk(s.body, qual + [s.name], [], True)
+                        walk(s.body, qual + [s.name], [], True, (), s)
                         continue
                     if isinstance(s, ast.ClassDef):
-                        walk(s.body, qual + [s.name], [], False)
+                        walk(s.body, qual + [s.name], [], False, (), None)
                         continue
                     # calls in the statement's own expressions (not in nested blocks)
                     own = [v for f, v in ast.iter_fields(s) if f not in ("body", "orelse", "finalbody", "handlers", "cases")]
@@ -238,25 +301,25 @@ def scan_sites(src_roots: list[Path], exp_path: Path):
                                             direct = isinstance(s, ast.Expr) and s.value is c
                                             sites.append({"file": rel, "qual": ".".join(qual) or "<module>", "gate": fn,
                                                           "guards": list(guards), "pre": pre if direct else pre + ["Nested"],
-                                                          "line": c.lineno})
+                                                          "line": c.lineno, "kind": guard_kind(gnodes, fnode)})
                     if isinstance(s, ast.If):
                         t = ast.unparse(s.test)
-                        walk(s.body, qual, guards + [t], in_func)
-                        walk(s.orelse, qual, guards + [f"not ({t})"], in_func)
+                        walk(s.body, qual, guards + [t], in_func, gnodes + ((s.test, True),), fnode)
+                        walk(s.orelse, qual, guards + [f"not ({t})"], in_func, gnodes + ((s.test, False),), fnode)
                     elif isinstance(s, (ast.For, ast.While)):
-                        walk(s.body, qual, guards + ["<loop>"], in_func)
-                        walk(s.orelse, qual, guards + ["<loop-else>"], in_func)
+                        walk(s.body, qual, guards + ["<loop>"], in_func, gnodes + ((None, True),), fnode)
+                        walk(s.orelse, qual, guards + ["<loop-else>"], in_func, gnodes + ((None, True),), fnode)
                     elif isinstance(s, ast.With):
-                        walk(s.body, qual, guards, in_func)
+                        walk(s.body, qual, guards, in_func, gnodes, fnode)
                     elif isinstance(s, ast.Try):
-                        walk(s.body, qual, guards, in_func)
+                        walk(s.body, qual, guards, in_func, gnodes, fnode)
                         for h in s.handlers:
-                            walk(h.body, qual, guards + ["<except>"], in_func)
-                        walk(s.orelse, qual, guards + ["<try-else>"], in_func)
-                        walk(s.finalbody, qual, guards, in_func)
+                            walk(h.body, qual, guards + ["<except>"], in_func, gnodes + ((None, True),), fnode)
+                        walk(s.orelse, qual, guards + ["<try-else>"], in_func, gnodes + ((None, True),), fnode)
+                        walk(s.finalbody, qual, guards, in_func, gnodes, fnode)
                     elif isinstance(s, ast.Match):
                         for c in s.cases:
-                            walk(c.body, qual, guards + [f"<case {ast.unparse(c.pattern)}>"], in_func)
+                            walk(c.body, qual, guards + [f"<case {ast.unparse(c.pattern)}>"], in_func, gnodes + ((None, True),), fnode)
 
             walk(mod.body, [], [], False)
     return sites, foreign, aliases
@@ -269,10 +332,10 @@ def sites_text(sites, foreign, aliases, exp_path: Path) -> str:
     for s in sites:
         guards = "[" + "; ".join(_coq_str(x) for x in s["guards"]) + "]"
         pre = "[" + "; ".join(_coq_str(x) for x in s["pre"]) + "]"
-        rows.append(f"  mkSite {_coq_str(s['file'])} {_coq_str(s['qual'])} {g[s['gate']]} {guards} {pre}")
+        rows.append(f"  mkSite {_coq_str(s['file'])} {_coq_str(s['qual'])} {g[s['gate']]} {guards} {pre} {_coq_str(s['kind'])}")
     return (HEADER.format(src="guppylang_internals/**/*.py, guppylang/**/*.py", tool="props/C33/tr_experimental.py (scan_sites)")
             + "From Coq Require Import ZArith String Bool List.\nFrom V.C33 Require Import ModelBase GenExperimental.\nImport ListNotations.\n\n"
-            + "Record site := mkSite { s_file : string; s_qual : string; s_gate : gate; s_guards : list string; s_pre : list string }.\n\n"
+            + "Record site := mkSite { s_file : string; s_qual : string; s_gate : gate; s_guards : list string; s_pre : list string; s_kind : string }.\n\n"
             + "Definition gate_sites : list site := [\n" + ";\n".join(rows) + "].\n\n"
             + "(* mentions of the flag variable outside experimental.py, and renamed imports of gates *)\n"
             + "Definition foreign_flag_uses : list string := [" + "; ".join(_coq_str(x) for x in foreign + aliases) + "].\n")
